@@ -35,13 +35,14 @@ class HarnessError(Exception):
 
 class Res(object):
     """Result of one case: violations [(key, message)], outcome token, non-trivial?, implementation calls."""
-    __slots__ = ("v", "o", "nt", "tr")
+    __slots__ = ("v", "o", "nt", "tr", "x")
 
-    def __init__(self, v=None, o="ok", nt=True, tr=1):
+    def __init__(self, v=None, o="ok", nt=True, tr=1, x=None):
         self.v = v or []
         self.o = o
         self.nt = nt
         self.tr = tr
+        self.x = x            # optional dict of numeric statistics, summed over the cases of a clause into the evidence
 
 
 OK = Res()
@@ -109,6 +110,7 @@ def _run_shard(args):
     cname, shard, nshards, deadline = args
     clause, cases = _SHARD_STATE[cname]
     evals = trans = nt = 0
+    sums = {}
     outcomes = {}
     viols = []
     done_all = True
@@ -131,6 +133,9 @@ def _run_shard(args):
         trans += r.tr
         if r.nt:
             nt += 1
+        if r.x:
+            for kx, vx in r.x.items():
+                sums[kx] = sums.get(kx, 0) + vx
         t = _tok(r.o)
         outcomes[t] = outcomes.get(t, 0) + 1
         if r.v and len(viols) < MAX_VIOL_PER_SHARD * 50:
@@ -148,7 +153,7 @@ def _run_shard(args):
         keycount[v["key"]] = keycount.get(v["key"], 0) + 1
     if len(outcomes) > 20000:
         outcomes = dict(list(outcomes.items())[:20000])
-    return evals, trans, nt, outcomes, [x for vs in perkey.values() for x in vs], done_all, nviolcases, keycount
+    return evals, trans, nt, outcomes, [x for vs in perkey.values() for x in vs], done_all, nviolcases, keycount, sums
 
 
 def run_case_clause(clause, tier, seed, jobs=NPROC):
@@ -175,7 +180,10 @@ def run_case_clause(clause, tier, seed, jobs=NPROC):
             results = pool.map(_run_shard, [(clause.name, s, nshards, deadline) for s in range(nshards)])
     keycount = {}
     nviolcases = 0
-    for evals, trans, nt, outcomes, viols, done_all, nvc, kc in results:
+    sums = {}
+    for evals, trans, nt, outcomes, viols, done_all, nvc, kc, sm in results:
+        for kx, vx in sm.items():
+            sums[kx] = sums.get(kx, 0) + vx
         cr.evaluations += evals
         cr.transitions += trans
         cr.nontrivial += nt
@@ -188,6 +196,8 @@ def run_case_clause(clause, tier, seed, jobs=NPROC):
         if not done_all:
             cr.exhaustive = False
     cr.violations.sort(key=lambda v: v["idx"])
+    if sums:
+        cr.extra["sums"] = sums
     cr.extra["violations_per_key"] = keycount
     cr.extra["violating_case_count"] = nviolcases
     if not cr.exhaustive:
